@@ -407,4 +407,94 @@ Proof.
   destruct (leaf_ok_proj ws pw i Hi Hl Hp) as (Hq & _). cbn [leaf_dom leaf_ran leaf_adjoint] in Hq.
   apply adj_pair_sym; assumption.
 Qed.
+
+(* ---------------- PointwiseInner / PointwiseInnerAdjoint (all weights) ---------------- *)
+Lemma wdot_scale_w p (w x y : vec) : wdot (vscal p w) x y = p * wdot w x y.
+Proof.
+  revert x y; induction w as [|c w IH]; intros x y; [cbn; ring|].
+  destruct x as [|a x]; [cbn [vscal map]; rewrite !wdot_nil_x; ring|].
+  destruct y as [|b y]; [cbn [vscal map]; rewrite !wdot_nil_y; ring|].
+  unfold vscal; cbn [map]. rewrite !wdot_cons. fold (vscal p w). rewrite IH. ring.
+Qed.
+Lemma vmul_comm (u v : vec) : vmul u v = vmul v u.
+Proof.
+  revert v; induction u as [|a u IH]; intros [|b v]; try reflexivity.
+  unfold vmul in *; cbn [vmap2]. rewrite IH. f_equal. ring.
+Qed.
+
+Definition pt_block (o : T) (gi : vec) (x : vec) : vec := map (nmul o) (vmul x (vconj gi)).
+Definition pt_block_adj (p o : T) (gi : vec) (f : vec) : vec :=
+  if o =? p then vmul gi f else map (fun a => a * (o / p)) (vmul gi f).
+
+Lemma pt_block_pair (wb gi : vec) p o : length gi = length wb -> nconj p = p -> nconj o = o -> p <> nzero ->
+  adj_pair (map (nmul p) wb) wb (pt_block o gi) (pt_block_adj p o gi).
+Proof.
+  intros Hg Hp Ho Hnz. split; [|split]; rewrite ?map_length.
+  - intros x Hx. unfold pt_block. rewrite map_length, vmul_len; [assumption | rewrite vconj_len; congruence].
+  - intros f Hf. unfold pt_block_adj. destruct (o =? p); rewrite ?map_length, vmul_len; congruence.
+  - intros x f Hx Hf. unfold pt_block, pt_block_adj.
+    change (map (nmul o) (vmul x (vconj gi))) with (vscal o (vmul x (vconj gi))).
+    change (map (nmul p) wb) with (vscal p wb).
+    rewrite (cinner_vscal_l OK), (cinner_vmul_move OK), (vconj_invol OK).
+    unfold cinner at 2. rewrite wdot_scale_w. fold (cinner wb x (if o =? p then vmul gi f else map (fun a => a * (o / p)) (vmul gi f))).
+    destruct (o =? p) eqn:E.
+    + apply (ck_eqb T OK) in E. subst o. rewrite (vmul_comm gi f). reflexivity.
+    + rewrite map_mul_r, (cinner_vscal_r OK), (vmul_comm gi f).
+      assert (Ec : p * nconj (o / p) = o).
+      { rewrite <- Hp at 1. rewrite <- (ck_conj_mul T OK).
+        replace (p * (o / p)) with (o / p * p) by ring. rewrite (ck_div_mul T OK) by assumption. exact Ho. }
+      rewrite <- Ec at 1. ring.
+Qed.
+
+Lemma ptinner_pair (wb : vec) : forall (g : list vec) (pw ow : vec), g <> [] ->
+  length pw = length g -> length ow = length g ->
+  Forall (fun gi => length gi = length wb) g ->
+  Forall (fun p => nconj p = p /\ p <> nzero) pw -> Forall (fun o => nconj o = o) ow ->
+  adj_pair (pweights pw (map (fun _ => wb) pw)) wb (ptinner (length wb) g ow) (ptinner_adj g pw ow).
+Proof.
+  induction g as [|gi g IH]; intros pw ow Hne Hp Ho Hg Hpw How; [congruence|].
+  destruct pw as [|p pw]; [discriminate|]. destruct ow as [|o ow]; [discriminate|].
+  destruct (Forall_inv Hpw) as [Hpr Hpz].
+  pose proof (pt_block_pair wb gi p o (Forall_inv Hg) Hpr (Forall_inv How) Hpz) as Hb.
+  destruct g as [|g2 g].
+  - destruct pw; [|discriminate]. destruct ow; [|discriminate].
+    cbn [map pweights ptinner ptinner_adj]. rewrite app_nil_r.
+    eapply adj_pair_ext; [| | exact Hb].
+    + intros x Hx. unfold pt_block. rewrite map_length in Hx. rewrite firstn_all2 by lia. reflexivity.
+    + intros f _. rewrite app_nil_r. reflexivity.
+  - assert (IH' := IH pw ow ltac:(discriminate) ltac:(cbn in *; lia) ltac:(cbn in *; lia)
+                     (Forall_inv_tail Hg) (Forall_inv_tail Hpw) (Forall_inv_tail How)).
+    pose proof (adj_hcat OK _ _ _ _ _ _ _ Hb IH') as Hc.
+    cbn [map pweights].
+    eapply adj_pair_ext; [| | exact Hc].
+    + intros x Hx. rewrite map_length. reflexivity.
+    + intros f _. reflexivity.
+Qed.
+
+Lemma leaf_ok_ptinner (wb pw : vec) (g : list vec) (ow : vec) : g <> [] ->
+  length pw = length g -> length ow = length g ->
+  Forall (fun gi => length gi = length wb) g ->
+  Forall (fun p => nconj p = p /\ p <> nzero) pw -> Forall (fun o => nconj o = o) ow ->
+  leaf_ok (LPtInner wb pw g ow).
+Proof.
+  intros. split; [|split; reflexivity]. cbn [leaf_dom leaf_ran leaf_adjoint eval eval_leaf].
+  apply ptinner_pair; assumption.
+Qed.
+Lemma vconj_pweights_const (wb pw : vec) : vconj wb = wb -> Forall (fun p => nconj p = p /\ p <> nzero) pw ->
+  vconj (pweights pw (map (fun _ => wb) pw)) = pweights pw (map (fun _ => wb) pw).
+Proof.
+  intros Hw. induction 1 as [|p pw [Hp _] _ IH]; [reflexivity|].
+  cbn [map pweights]. rewrite vconj_app, IH. f_equal.
+  change (map (nmul p) wb) with (vscal p wb). rewrite (vconj_vscal OK), Hp, Hw. reflexivity.
+Qed.
+Lemma leaf_ok_ptinner_adj (wb pw : vec) (g : list vec) (ow : vec) : g <> [] ->
+  length pw = length g -> length ow = length g ->
+  Forall (fun gi => length gi = length wb) g ->
+  Forall (fun p => nconj p = p /\ p <> nzero) pw -> Forall (fun o => nconj o = o) ow ->
+  vconj wb = wb -> leaf_ok (LPtInnerAdj wb pw g ow).
+Proof.
+  intros Hne Hp Ho Hg Hpw How Hwb. split; [|split; reflexivity]. cbn [leaf_dom leaf_ran leaf_adjoint eval eval_leaf].
+  apply adj_pair_sym; [apply vconj_pweights_const; assumption | assumption |].
+  apply ptinner_pair; assumption.
+Qed.
 End Leaf.
